@@ -3,9 +3,11 @@
 
   Model   CC/Model/Circuit.lean  (interpreter of the generated tables `Gen.tables`)
   Spec    CC/Spec/Phasor.lean    (`Spec.branchOf`, `Spec.nonGround`, `Spec.groundOf`)
-  The theorems named `…_partial` are the strongest true restrictions of statements that the
-  current code violates; the full statements are kept as `def …_statement : Prop` and refuted
-  by the `…_counterexample` theorems (DESIGN §3.4).
+  History: until the fix commits ac3e686, 76d4676, 166c364 (conductance / admittance translators,
+  complex_current_source without a frequency gate, periodic sources keeping their internal R / G)
+  four statements of this file were refuted by `…_counterexample` theorems; on the repaired
+  sources they are theorems at full strength (`C07_table_total`, `C07_reads_written`,
+  `C07_faithful`, `C07_harmonic`).
 -/
 import CC.Proofs.CircuitLemmas
 import CC.Proofs.RoundLemmas
@@ -18,14 +20,15 @@ open Gen
 def C07_table_total_statement : Prop :=
   ∀ s ∈ ctorSpecs, s.kind ≠ "ground" → Gen.tables.hasKind s.kind = true
 
-/-- the current code violates it: `conductance` and `admittance` have no entry -/
-theorem C07_table_total_counterexample : ¬ C07_table_total_statement := by
+theorem C07_table_total : C07_table_total_statement := by
   unfold C07_table_total_statement; decide
 
-/-- … and those two are the only ones -/
-theorem C07_table_total_partial :
-    ∀ s ∈ ctorSpecs, s.kind ∉ ["ground", "conductance", "admittance"] → Gen.tables.hasKind s.kind = true := by
-  decide
+/-- every value key a translator can read: the unconditional reads and, for a periodic
+translator, the keys handed to the inner constructor -/
+def TSpec.allKeys (t : TSpec) : List String :=
+  t.reads ++ match t.body with
+    | .periodic _ _ _ _ _ _ _ ctorArgs _ => ctorArgs.filterMap fun a => match a.2 with | .key k => some k | _ => none
+    | _ => []
 
 /-- the translator of a kind reads only keys that the constructor of that kind writes -/
 def readsWritten (T : Tables) (s : CtorSpec) : Bool :=
@@ -33,17 +36,12 @@ def readsWritten (T : Tables) (s : CtorSpec) : Bool :=
   | none => true
   | some fn => match T.tspec? fn with
     | none => false
-    | some t => t.reads.all fun k => (s.values.map (·.1)).contains k
+    | some t => t.allKeys.all fun k => (s.values.map (·.1)).contains k
 
 def C07_reads_written_statement : Prop := ∀ s ∈ ctorSpecs, readsWritten Gen.tables s = true
 
-/-- violated: the translator of `complex_current_source` reads `'w'`, which its constructor
-never writes (every call raises `KeyError`) -/
-theorem C07_reads_written_counterexample : ¬ C07_reads_written_statement := by
+theorem C07_reads_written : C07_reads_written_statement := by
   unfold C07_reads_written_statement; decide
-
-theorem C07_reads_written_partial :
-    ∀ s ∈ ctorSpecs, s.kind ≠ "complex_current_source" → readsWritten Gen.tables s = true := by decide
 
 /-- structural well-formedness of a translator table: every translator names its branch
 after the component itself and takes the terminals in the component's order -/
@@ -104,6 +102,7 @@ theorem construct_ok {cs : CtorSpec} {i : String} {ns : List String} {args : Lis
   obtain ⟨_, h1, h⟩ := bind_eq_ok.mp h
   obtain ⟨env, _, h⟩ := bind_eq_ok.mp h
   obtain ⟨_, _, h⟩ := bind_eq_ok.mp h
+  obtain ⟨_, _, h⟩ := bind_eq_ok.mp h
   obtain ⟨value, _, h⟩ := bind_eq_ok.mp h
   cases h0; cases h1
   simp at h
@@ -148,6 +147,7 @@ theorem C07_branch_id_terminals (T : Tables) (hT : T.WellFormed) (trig : Trig) (
             obtain ⟨cs, _, h⟩ := bind_eq_ok.mp h
             obtain ⟨n1, hn1, h⟩ := bind_eq_ok.mp h
             obtain ⟨n2, hn2, h⟩ := bind_eq_ok.mp h
+            obtain ⟨args, _, h⟩ := bind_eq_ok.mp h
             obtain ⟨single, hsingle, h⟩ := bind_eq_ok.mp h
             obtain ⟨si, hsi, h⟩ := bind_eq_ok.mp h
             have hsi' : T.tspec? inner = some si := by
@@ -212,19 +212,16 @@ theorem C07_nothing_dropped_iff (T : Tables) (hg : T.hasKind "ground" = false) (
     · simp [hk, hg]
     · simp [hk, h c hc hk]
 
-/-- the current code does drop components: a conductance between a current source and a
-resistor vanishes from the network without any error -/
-theorem C07_dropped_counterexample :
-    let cs : List Component :=
-      [⟨"ground", "gnd", ["0"], []⟩,
-       ⟨"dc_current_source", "I", ["0", "1"], [("I", .num 1), ("G", .num 0), ("w", .num 0), ("phi", .num 0)]⟩,
-       ⟨"conductance", "G", ["1", "0"], [("G", .num 2)]⟩,
-       ⟨"resistor", "R", ["1", "0"], [("R", .num 1)]⟩]
-    (Spec.nonGround cs).map (·.id) = ["I", "G", "R"] ∧
-    (do let bs ← transformBranches Gen.tables (fun _ => (1, 0)) (fun _ _ _ _ => (0, 0)) cs 0 Gen.defaultWRes
-        pure (bs.map (·.id))) = Except.ok ["I", "R"] := by
-  decide +kernel
+theorem ground_not_translated : Gen.tables.hasKind "ground" = false := by decide
 
+/-- **C07 (nothing dropped).**  For every list of components of kinds the component module can
+construct, the translated components are exactly the non-ground components: nothing is
+silently omitted. -/
+theorem C07_nothing_dropped (cs : List Component) (h : ∀ c ∈ cs, ∃ s ∈ ctorSpecs, c.kind = s.kind) :
+    translated Gen.tables cs = Spec.nonGround cs :=
+  (C07_nothing_dropped_iff Gen.tables ground_not_translated cs).mpr (fun c hc hk => by
+    obtain ⟨s, hs, he⟩ := h c hc
+    rw [he]; exact C07_table_total s hs (he ▸ hk))
 
 /-! ## faithfulness, kind by kind
 
@@ -249,6 +246,19 @@ theorem tspec_resistor : Gen.tables.tspec? "resistor" = some
 theorem tspec_impedance : Gen.tables.tspec? "impedance" = some
     { fn := "impedance", reads := ["R", "X"], n1 := 0, n2 := 1, idSelf := true,
       body := .plain (.impedance (.cart (.key "R") (.key "X"))) } := by decide
+
+theorem tspec_conductance : Gen.tables.tspec? "conductance" = some
+    { fn := "conductance", reads := ["G"], n1 := 0, n2 := 1, idSelf := true,
+      body := .plain (.conductor (.key "G")) } := by decide
+
+theorem tspec_admittance : Gen.tables.tspec? "admittance" = some
+    { fn := "admittance", reads := ["G", "B"], n1 := 0, n2 := 1, idSelf := true,
+      body := .plain (.admittance (.cart (.key "G") (.key "B"))) } := by decide
+
+theorem tspec_complex_current_source : Gen.tables.tspec? "complex_current_source" = some
+    { fn := "complex_current_source", reads := ["I_real", "I_imag", "G", "B"], n1 := 0, n2 := 1, idSelf := true,
+      body := .plain (.currentSource (.cart (.key "I_real") (.key "I_imag")) (.cart (.key "G") (.key "B"))) } := by
+  decide
 
 theorem tspec_capacitor : Gen.tables.tspec? "capacitor" = some
     { fn := "capacitor", reads := ["C"], n1 := 0, n2 := 1, idSelf := true,
@@ -320,6 +330,27 @@ theorem C07_faithful_impedance (R X : Rat)
   constructor
   · tc_simp [hk, hl, tspec_impedance, hn, float_of_lookup hR, float_of_lookup hX]
   · tc_simp [hk, hn, num?_of_lookup hR, num?_of_lookup hX]
+
+theorem C07_faithful_conductance (G : Rat)
+    (hk : c.kind = "conductance") (hn : c.nodes = [a, b]) (hG : c.value.lookup "G" = some (.num G)) :
+    transformComponent Gen.tables trig harm c w wres
+      = some (.ok { n1 := a, n2 := b, id := c.id, ty := "conductor", e := .thevenin ⟨G, 0⟩ 0 })
+    ∧ Spec.branchOf trig harm c w wres = some { n1 := a, n2 := b, id := c.id, e := .thevenin ⟨G, 0⟩ 0 } := by
+  have hl : Gen.tables.transformers.lookup "conductance" = some "conductance" := by decide
+  constructor
+  · tc_simp [hk, hl, tspec_conductance, hn, float_of_lookup hG]
+  · tc_simp [hk, hn, num?_of_lookup hG]
+
+theorem C07_faithful_admittance (G B : Rat)
+    (hk : c.kind = "admittance") (hn : c.nodes = [a, b]) (hG : c.value.lookup "G" = some (.num G))
+    (hB : c.value.lookup "B" = some (.num B)) :
+    transformComponent Gen.tables trig harm c w wres
+      = some (.ok { n1 := a, n2 := b, id := c.id, ty := "admittance", e := .thevenin ⟨G, B⟩ 0 })
+    ∧ Spec.branchOf trig harm c w wres = some { n1 := a, n2 := b, id := c.id, e := .thevenin ⟨G, B⟩ 0 } := by
+  have hl : Gen.tables.transformers.lookup "admittance" = some "admittance" := by decide
+  constructor
+  · tc_simp [hk, hl, tspec_admittance, hn, float_of_lookup hG, float_of_lookup hB]
+  · tc_simp [hk, hn, num?_of_lookup hG, num?_of_lookup hB]
 
 /-- a capacitor is the admittance `j·w·C` -/
 theorem C07_faithful_capacitor (C : Rat)
@@ -461,32 +492,19 @@ theorem C07_faithful_ac_current_source (h0 : TrigZero trig) (I G ws phi : Rat)
   · tc_simp [hk, hn, num?_of_lookup hI, num?_of_lookup hG, num?_of_lookup hw, num?_of_lookup hp]
 
 
-/-! ## `complex_current_source`: the translator cannot run -/
-
-theorem tspec_complex_current_source : Gen.tables.tspec? "complex_current_source" = some
-    { fn := "complex_current_source", reads := ["I_real", "I_imag", "G", "B", "w"], n1 := 0, n2 := 1, idSelf := true,
-      body := .gated (.currentSource (.cart (.key "I_real") (.key "I_imag")) (.cart (.key "G") (.key "B")))
-        (.key "w") .gt .shortCircuit } := by decide
-
-/-- the constructor of `complex_current_source` writes exactly these keys -/
-theorem ctor_complex_current_source_keys :
-    (Gen.tables.ctor? "complex_current_source").map (fun s => s.values.map (·.1)) = some ["I_real", "I_imag", "G", "B"] := by
-  decide
-
-/-- **finding.**  Every component the constructor `complex_current_source` can build (value
-keys `I_real, I_imag, G, B`, no `w`) makes its translator raise `KeyError`, at every frequency:
-such a component never becomes a branch.  (Were the key present, the gated-off element would
-be a *short* circuit — `tspec_complex_current_source` — where a current source must be open.) -/
-theorem C07_complex_current_source_counterexample (Ir Ii G B : Rat)
-    (hk : c.kind = "complex_current_source")
+/-- a complex current source carries no frequency: it is active at every `w` -/
+theorem C07_faithful_complex_current_source (Ir Ii G B : Rat)
+    (hk : c.kind = "complex_current_source") (hn : c.nodes = [a, b])
     (hIr : c.value.lookup "I_real" = some (.num Ir)) (hIi : c.value.lookup "I_imag" = some (.num Ii))
-    (hG : c.value.lookup "G" = some (.num G)) (hB : c.value.lookup "B" = some (.num B))
-    (hw : c.value.lookup "w" = none) :
-    transformComponent Gen.tables trig harm c w wres = some (.error .keyError) := by
+    (hG : c.value.lookup "G" = some (.num G)) (hB : c.value.lookup "B" = some (.num B)) :
+    transformComponent Gen.tables trig harm c w wres
+      = some (.ok { n1 := a, n2 := b, id := c.id, ty := "current_source", e := .thevenin ⟨G, B⟩ ⟨Ir, Ii⟩ })
+    ∧ Spec.branchOf trig harm c w wres = some { n1 := a, n2 := b, id := c.id, e := .thevenin ⟨G, B⟩ ⟨Ir, Ii⟩ } := by
   have hl : Gen.tables.transformers.lookup "complex_current_source" = some "complex_current_source" := by decide
-  have hf : c.float "w" = .error .keyError := by simp [Component.float, Component.get?, hw]
-  tc_simp [hk, hl, tspec_complex_current_source, float_of_lookup hIr, float_of_lookup hIi, float_of_lookup hG,
-    float_of_lookup hB, hf]
+  constructor
+  · tc_simp [hk, hl, tspec_complex_current_source, hn, float_of_lookup hIr, float_of_lookup hIi, float_of_lookup hG,
+      float_of_lookup hB]
+  · tc_simp [hk, hn, num?_of_lookup hIr, num?_of_lookup hIi, num?_of_lookup hG, num?_of_lookup hB]
 
 /-! ## periodic sources: harmonic selection -/
 
@@ -520,12 +538,12 @@ theorem C07_harmonic_index (w w0 wres : Rat) (h0 : 0 < w0) (hres : 2 * wres < w0
 theorem tspec_periodic_voltage_source : Gen.tables.tspec? "periodic_voltage_source" = some
     { fn := "periodic_voltage_source", reads := ["wavetype", "w", "V", "phi"], n1 := 0, n2 := 1, idSelf := true,
       body := .periodic "wavetype" "w" "V" "phi" .gt .shortCircuit
-        "ac_voltage_source" [("w", .w), ("phi", .harmPhase), ("V", .harmAmp)] "ac_voltage_source" } := by decide
+        "ac_voltage_source" [("w", .w), ("phi", .harmPhase), ("V", .harmAmp), ("R", .key "R")] "ac_voltage_source" } := by decide
 
 theorem tspec_periodic_current_source : Gen.tables.tspec? "periodic_current_source" = some
     { fn := "periodic_current_source", reads := ["wavetype", "w", "I", "phi"], n1 := 0, n2 := 1, idSelf := true,
       body := .periodic "wavetype" "w" "I" "phi" .gt .openCircuit
-        "ac_current_source" [("w", .w), ("phi", .harmPhase), ("I", .harmAmp)] "ac_current_source" } := by decide
+        "ac_current_source" [("w", .w), ("phi", .harmPhase), ("I", .harmAmp), ("G", .key "G")] "ac_current_source" } := by decide
 
 theorem ctor_ac_voltage_source : Gen.tables.ctor? "ac_voltage_source" = some
     { fn := "ac_voltage_source", kind := "ac_voltage_source", idDefault := none, nodesDefault := none,
@@ -565,29 +583,30 @@ theorem tspecE_ac_current_source : Gen.tables.tspecE "ac_current_source" = .ok
         (.key "w") .gt .openCircuit } := by
   simp [Tables.tspecE, tspec_ac_current_source]
 
-/-- **C07 (harmonic), voltage, restricted to sources without internal resistance.**
-A periodic voltage source with fundamental `w0 > 0`, analysed at `w ≥ 0` with a resolution
-`0 ≤ w_res < w0/2`, becomes: the `n`-th harmonic `amplitude(n)·(cos phase(n) + j sin phase(n))`
-when `n·w0` is within the resolution of `w`, a short circuit otherwise — as the specification
-demands.  The restriction `R = 0` is necessary: see `C07_harmonic_internal_counterexample`. -/
-theorem C07_harmonic_voltage_partial (h0 : TrigZero trig) (wt : String) (V w0 phi : Rat)
+/-- **C07 (harmonic), voltage.**
+A periodic voltage source with fundamental `w0 > 0` and internal resistance `R ≥ 0`, analysed at
+`w ≥ 0` with a resolution `0 ≤ w_res < w0/2`, becomes: the `n`-th harmonic
+`amplitude(n)·(cos phase(n) + j sin phase(n))` behind `R` when `n·w0` is within the resolution of
+`w`, a short circuit otherwise — as the specification demands. -/
+theorem C07_harmonic_voltage (h0 : TrigZero trig) (wt : String) (V w0 phi R : Rat)
     (hk : c.kind = "periodic_voltage_source") (hn : c.nodes = [a, b])
     (hwt : c.value.lookup "wavetype" = some (.str wt)) (hwave : wt ∈ Gen.waveTypes)
     (hV : c.value.lookup "V" = some (.num V)) (hw0 : c.value.lookup "w" = some (.num w0))
-    (hphi : c.value.lookup "phi" = some (.num phi)) (hR : c.value.lookup "R" = some (.num 0))
+    (hphi : c.value.lookup "phi" = some (.num phi)) (hR : c.value.lookup "R" = some (.num R)) (hRpos : 0 ≤ R)
     (hpos : 0 < w0) (hw : 0 ≤ w) (hres0 : 0 ≤ wres) (hres : 2 * wres < w0) :
     let n := roundHalfEven (w / w0)
     transformComponent Gen.tables trig harm c w wres
       = some (.ok (if periodicOff w w0 wres
           then { n1 := a, n2 := b, id := c.id, ty := "short_circuit", e := .norton 0 0 }
           else { n1 := a, n2 := b, id := c.id, ty := "voltage_source",
-                 e := .norton ⟨0, 0⟩ (Spec.phasor trig (harm wt V phi n).1 (harm wt V phi n).2) }))
+                 e := .norton ⟨R, 0⟩ (Spec.phasor trig (harm wt V phi n).1 (harm wt V phi n).2) }))
     ∧ Spec.branchOf trig harm c w wres = some { n1 := a, n2 := b, id := c.id, e := (if periodicOff w w0 wres
-          then .norton 0 0 else .norton ⟨0, 0⟩ (Spec.phasor trig (harm wt V phi n).1 (harm wt V phi n).2)) } := by
+          then .norton 0 0 else .norton ⟨R, 0⟩ (Spec.phasor trig (harm wt V phi n).1 (harm wt V phi n).2)) } := by
   intro n
   have hl : Gen.tables.transformers.lookup "periodic_voltage_source" = some "periodic_voltage_source" := by decide
   have hne : ¬ w0 = 0 := by grind
   have hwn : ¬ w < 0 := by grind
+  have hRn : ¬ R < 0 := by grind
   have hg : ¬ wres < absQ (w - w) := by
     have : w - w = 0 := by grind
     rw [this, absQ_zero]; grind
@@ -606,32 +625,33 @@ theorem C07_harmonic_voltage_partial (h0 : TrigZero trig) (wt : String) (V w0 ph
     · rename_i hoff
       have : ¬ periodicOff w w0 wres := hoff
       simp [this, periodicActive, hctor, tspecE_ac_voltage_source, Component.node, hn, CtorSpec.construct,
-        bindParams, HArg.eval, Guard.check, VE.eval, errOfExc, Cmp.holds, hwn, List.lookup,
+        bindParams, HArg.eval, Guard.check, VE.eval, errOfExc, Cmp.holds, hwn, hRn, List.lookup, float_of_lookup hR, hR,
         TSpec.runSimple, preRead, Component.float, Component.get?, RE.eval, CE.eval, EE.eval, complexValue, mkBranch,
         bind, Except.bind, pure, Except.pure, h0, hg, hg0, Spec.phasor, n]
   · by_cases hoff : periodicOff w w0 wres <;>
     simp [Spec.branchOf, Spec.elemOf, hk, hn, str?_of_lookup hwt, num?_of_lookup hV, num?_of_lookup hw0,
       num?_of_lookup hphi, num?_of_lookup hR, hpos, C07_harmonic_index w w0 wres hpos hres, Spec.shortE, n, hoff]
 
-/-- **C07 (harmonic), current, restricted to sources without internal conductance.** -/
-theorem C07_harmonic_current_partial (h0 : TrigZero trig) (wt : String) (I w0 phi : Rat)
+/-- **C07 (harmonic), current**: the `n`-th harmonic beside `G ≥ 0`, an open circuit otherwise. -/
+theorem C07_harmonic_current (h0 : TrigZero trig) (wt : String) (I w0 phi G : Rat)
     (hk : c.kind = "periodic_current_source") (hn : c.nodes = [a, b])
     (hwt : c.value.lookup "wavetype" = some (.str wt)) (hwave : wt ∈ Gen.waveTypes)
     (hI : c.value.lookup "I" = some (.num I)) (hw0 : c.value.lookup "w" = some (.num w0))
-    (hphi : c.value.lookup "phi" = some (.num phi)) (hG : c.value.lookup "G" = some (.num 0))
+    (hphi : c.value.lookup "phi" = some (.num phi)) (hG : c.value.lookup "G" = some (.num G)) (hGpos : 0 ≤ G)
     (hpos : 0 < w0) (hw : 0 ≤ w) (hres0 : 0 ≤ wres) (hres : 2 * wres < w0) :
     let n := roundHalfEven (w / w0)
     transformComponent Gen.tables trig harm c w wres
       = some (.ok (if periodicOff w w0 wres
           then { n1 := a, n2 := b, id := c.id, ty := "open_circuit", e := .thevenin 0 0 }
           else { n1 := a, n2 := b, id := c.id, ty := "current_source",
-                 e := .thevenin ⟨0, 0⟩ (Spec.phasor trig (harm wt I phi n).1 (harm wt I phi n).2) }))
+                 e := .thevenin ⟨G, 0⟩ (Spec.phasor trig (harm wt I phi n).1 (harm wt I phi n).2) }))
     ∧ Spec.branchOf trig harm c w wres = some { n1 := a, n2 := b, id := c.id, e := (if periodicOff w w0 wres
-          then .thevenin 0 0 else .thevenin ⟨0, 0⟩ (Spec.phasor trig (harm wt I phi n).1 (harm wt I phi n).2)) } := by
+          then .thevenin 0 0 else .thevenin ⟨G, 0⟩ (Spec.phasor trig (harm wt I phi n).1 (harm wt I phi n).2)) } := by
   intro n
   have hl : Gen.tables.transformers.lookup "periodic_current_source" = some "periodic_current_source" := by decide
   have hne : ¬ w0 = 0 := by grind
   have hwn : ¬ w < 0 := by grind
+  have hGn : ¬ G < 0 := by grind
   have hg : ¬ wres < absQ (w - w) := by
     have : w - w = 0 := by grind
     rw [this, absQ_zero]; grind
@@ -650,7 +670,7 @@ theorem C07_harmonic_current_partial (h0 : TrigZero trig) (wt : String) (I w0 ph
     · rename_i hoff
       have : ¬ periodicOff w w0 wres := hoff
       simp [this, periodicActive, hctor, tspecE_ac_current_source, Component.node, hn, CtorSpec.construct,
-        bindParams, HArg.eval, Guard.check, VE.eval, errOfExc, Cmp.holds, hwn, List.lookup,
+        bindParams, HArg.eval, Guard.check, VE.eval, errOfExc, Cmp.holds, hwn, hGn, List.lookup, float_of_lookup hG, hG,
         TSpec.runSimple, preRead, Component.float, Component.get?, RE.eval, CE.eval, EE.eval, complexValue, mkBranch,
         bind, Except.bind, pure, Except.pure, h0, hg, hg0, Spec.phasor, n]
   · by_cases hoff : periodicOff w w0 wres <;>
@@ -658,64 +678,298 @@ theorem C07_harmonic_current_partial (h0 : TrigZero trig) (wt : String) (I w0 ph
       num?_of_lookup hphi, num?_of_lookup hG, hpos, C07_harmonic_index w w0 wres hpos hres, Spec.openE, n, hoff]
 
 
-/-- the full harmonic statement: as `C07_harmonic_voltage_partial` / `…_current_partial`, but
-for sources with *any* internal resistance / conductance -/
+/-! ## the full statements -/
+
+/-- the kinds whose branch does not depend on a waveform (everything the component module can
+construct except `ground` and the two periodic sources) -/
+def exactKinds : List String :=
+  ["resistor", "conductance", "impedance", "admittance", "capacitor", "inductance", "lamp", "resistive_load",
+   "short_circuit", "dc_voltage_source", "ac_voltage_source", "complex_voltage_source", "dc_current_source",
+   "ac_current_source", "complex_current_source"]
+
+def periodicKinds : List String := ["periodic_voltage_source", "periodic_current_source"]
+
+/-- a DC source as its constructor writes it: the stored frequency is 0 -/
+def Component.dcOK (c : Component) : Prop :=
+  (c.kind = "dc_voltage_source" ∨ c.kind = "dc_current_source") → c.value.lookup "w" = some (.num 0)
+
+/-- admissible analysis of a periodic source (what its constructor and a sensible resolution
+guarantee): known wavetype, non-negative internal R / G, `w ≥ 0`, `0 ≤ w_res < w0/2` -/
+def Component.periodicOK (c : Component) (w wres : Rat) : Prop :=
+  c.kind ∈ periodicKinds →
+    0 ≤ w ∧ 0 ≤ wres ∧ (∀ w0, Spec.num? c "w" = some w0 → 2 * wres < w0) ∧
+    (∀ wt, Spec.str? c "wavetype" = some wt → wt ∈ Gen.waveTypes) ∧
+    (∀ r, Spec.num? c "R" = some r → 0 ≤ r) ∧ (∀ g, Spec.num? c "G" = some g → 0 ≤ g)
+
+theorem branchOf_inv {trig : Trig} {harm : Harm} {c : Component} {w wres : Rat} {sb : Branch String GQ}
+    (h : Spec.branchOf trig harm c w wres = some sb) :
+    ∃ a b e, c.nodes = [a, b] ∧ Spec.elemOf trig harm c w wres = some e ∧
+      sb = { n1 := a, n2 := b, id := c.id, e := e } := by
+  unfold Spec.branchOf at h
+  split at h
+  · rename_i a b e hn he
+    exact ⟨a, b, e, hn, he, by simpa using h.symm⟩
+  · cases h
+
+theorem erase_ite (p : Prop) [Decidable p] (x y : Branch String GQ) :
+    Spec.erase (if p then x else y) = if p then Spec.erase x else Spec.erase y := by
+  split <;> rfl
+
+/-- **C07 (faithful, kinds without waveform).**  For every kind in `exactKinds`: whenever the
+specification defines the intended branch of a component, the generated translator produces
+exactly it (same terminals, identifier and record), at every frequency and resolution. -/
+theorem C07_faithful_nonperiodic (trig : Trig) (harm : Harm) (h0 : TrigZero trig) (c : Component) (w wres : Rat)
+    (sb : Branch String GQ) (hk : c.kind ∈ exactKinds) (hdc : c.dcOK)
+    (hs : Spec.branchOf trig harm c w wres = some sb) :
+    ∃ br, transformComponent Gen.tables trig harm c w wres = some (.ok br) ∧ Spec.erase br = sb := by
+  obtain ⟨a, b, e, hn, he, rfl⟩ := branchOf_inv hs
+  simp only [exactKinds, List.mem_cons, List.mem_nil_iff, or_false] at hk
+  rcases hk with hk | hk | hk | hk | hk | hk | hk | hk | hk | hk | hk | hk | hk | hk | hk
+  · -- resistor
+    cases hR : Spec.num? c "R" with
+    | none => simp [Spec.elemOf, hk, hR] at he
+    | some R =>
+      simp [Spec.elemOf, hk, hR] at he; subst he
+      exact ⟨_, (C07_faithful_resistor trig harm c w wres a b R hk hn (lookup_of_num? hR)).1, rfl⟩
+  · -- conductance
+    cases hG : Spec.num? c "G" with
+    | none => simp [Spec.elemOf, hk, hG] at he
+    | some G =>
+      simp [Spec.elemOf, hk, hG] at he; subst he
+      exact ⟨_, (C07_faithful_conductance trig harm c w wres a b G hk hn (lookup_of_num? hG)).1, rfl⟩
+  · -- impedance
+    cases hR : Spec.num? c "R" with
+    | none => simp [Spec.elemOf, hk, hR] at he
+    | some R =>
+      cases hX : Spec.num? c "X" with
+      | none => simp [Spec.elemOf, hk, hR, hX] at he
+      | some X =>
+        simp [Spec.elemOf, hk, hR, hX] at he; subst he
+        exact ⟨_, (C07_faithful_impedance trig harm c w wres a b R X hk hn (lookup_of_num? hR) (lookup_of_num? hX)).1, rfl⟩
+  · -- admittance
+    cases hG : Spec.num? c "G" with
+    | none => simp [Spec.elemOf, hk, hG] at he
+    | some G =>
+      cases hB : Spec.num? c "B" with
+      | none => simp [Spec.elemOf, hk, hG, hB] at he
+      | some B =>
+        simp [Spec.elemOf, hk, hG, hB] at he; subst he
+        exact ⟨_, (C07_faithful_admittance trig harm c w wres a b G B hk hn (lookup_of_num? hG) (lookup_of_num? hB)).1, rfl⟩
+  · -- capacitor
+    cases hC : Spec.num? c "C" with
+    | none => simp [Spec.elemOf, hk, hC] at he
+    | some C =>
+      simp [Spec.elemOf, hk, hC] at he; subst he
+      exact ⟨_, (C07_faithful_capacitor trig harm c w wres a b C hk hn (lookup_of_num? hC)).1, rfl⟩
+  · -- inductance
+    cases hL : Spec.num? c "L" with
+    | none => simp [Spec.elemOf, hk, hL] at he
+    | some L =>
+      simp [Spec.elemOf, hk, hL] at he; subst he
+      exact ⟨_, (C07_faithful_inductance trig harm c w wres a b L hk hn (lookup_of_num? hL)).1, rfl⟩
+  · -- lamp
+    cases hP : Spec.num? c "P" with
+    | none => simp [Spec.elemOf, hk, hP] at he
+    | some P =>
+      cases hV : Spec.num? c "V_ref" with
+      | none => simp [Spec.elemOf, hk, hP, hV] at he
+      | some V =>
+        by_cases hpos : 0 < V
+        · simp [Spec.elemOf, hk, hP, hV, hpos] at he; subst he
+          exact ⟨_, (C07_faithful_load trig harm c w wres a b P V (Or.inl hk) hn (lookup_of_num? hP) (lookup_of_num? hV) hpos).1, rfl⟩
+        · simp [Spec.elemOf, hk, hP, hV, hpos] at he
+  · -- resistive_load
+    cases hP : Spec.num? c "P" with
+    | none => simp [Spec.elemOf, hk, hP] at he
+    | some P =>
+      cases hV : Spec.num? c "V_ref" with
+      | none => simp [Spec.elemOf, hk, hP, hV] at he
+      | some V =>
+        by_cases hpos : 0 < V
+        · simp [Spec.elemOf, hk, hP, hV, hpos] at he; subst he
+          exact ⟨_, (C07_faithful_load trig harm c w wres a b P V (Or.inr hk) hn (lookup_of_num? hP) (lookup_of_num? hV) hpos).1, rfl⟩
+        · simp [Spec.elemOf, hk, hP, hV, hpos] at he
+  · -- short_circuit
+    simp [Spec.elemOf, hk] at he; subst he
+    exact ⟨_, (C07_faithful_short_circuit trig harm c w wres a b hk hn).1, rfl⟩
+  · -- dc_voltage_source
+    have hw := hdc (Or.inl hk)
+    cases hV : Spec.num? c "V" with
+    | none => simp [Spec.elemOf, hk, hV] at he
+    | some V =>
+      cases hR : Spec.num? c "R" with
+      | none => simp [Spec.elemOf, hk, hV, hR] at he
+      | some R =>
+        simp [Spec.elemOf, hk, hV, hR] at he; subst he
+        refine ⟨_, (C07_faithful_dc_voltage_source trig harm c w wres a b h0 V R hk hn (lookup_of_num? hV) (lookup_of_num? hR) hw).1, ?_⟩
+        rw [erase_ite]; split <;> simp [Spec.erase, Spec.shortE]
+  · -- ac_voltage_source
+    cases hV : Spec.num? c "V" with
+    | none => simp [Spec.elemOf, hk, hV] at he
+    | some V =>
+      cases hR : Spec.num? c "R" with
+      | none => simp [Spec.elemOf, hk, hV, hR] at he
+      | some R =>
+        cases hws : Spec.num? c "w" with
+        | none => simp [Spec.elemOf, hk, hV, hR, hws] at he
+        | some ws =>
+          cases hp : Spec.num? c "phi" with
+          | none => simp [Spec.elemOf, hk, hV, hR, hws, hp] at he
+          | some phi =>
+            simp [Spec.elemOf, hk, hV, hR, hws, hp] at he; subst he
+            refine ⟨_, (C07_faithful_ac_voltage_source trig harm c w wres a b h0 V R ws phi hk hn (lookup_of_num? hV)
+              (lookup_of_num? hR) (lookup_of_num? hws) (lookup_of_num? hp)).1, ?_⟩
+            rw [erase_ite]; split <;> simp [Spec.erase, Spec.shortE]
+  · -- complex_voltage_source
+    cases hVr : Spec.num? c "V_real" with
+    | none => simp [Spec.elemOf, hk, hVr] at he
+    | some Vr =>
+      cases hVi : Spec.num? c "V_imag" with
+      | none => simp [Spec.elemOf, hk, hVr, hVi] at he
+      | some Vi =>
+        cases hR : Spec.num? c "R" with
+        | none => simp [Spec.elemOf, hk, hVr, hVi, hR] at he
+        | some R =>
+          cases hX : Spec.num? c "X" with
+          | none => simp [Spec.elemOf, hk, hVr, hVi, hR, hX] at he
+          | some X =>
+            simp [Spec.elemOf, hk, hVr, hVi, hR, hX] at he; subst he
+            exact ⟨_, (C07_faithful_complex_voltage_source trig harm c w wres a b Vr Vi R X hk hn (lookup_of_num? hVr)
+              (lookup_of_num? hVi) (lookup_of_num? hR) (lookup_of_num? hX)).1, rfl⟩
+  · -- dc_current_source
+    have hw := hdc (Or.inr hk)
+    cases hI : Spec.num? c "I" with
+    | none => simp [Spec.elemOf, hk, hI] at he
+    | some I =>
+      cases hG : Spec.num? c "G" with
+      | none => simp [Spec.elemOf, hk, hI, hG] at he
+      | some G =>
+        simp [Spec.elemOf, hk, hI, hG] at he; subst he
+        refine ⟨_, (C07_faithful_dc_current_source trig harm c w wres a b h0 I G hk hn (lookup_of_num? hI) (lookup_of_num? hG) hw).1, ?_⟩
+        rw [erase_ite]; split <;> simp [Spec.erase, Spec.openE]
+  · -- ac_current_source
+    cases hI : Spec.num? c "I" with
+    | none => simp [Spec.elemOf, hk, hI] at he
+    | some I =>
+      cases hG : Spec.num? c "G" with
+      | none => simp [Spec.elemOf, hk, hI, hG] at he
+      | some G =>
+        cases hws : Spec.num? c "w" with
+        | none => simp [Spec.elemOf, hk, hI, hG, hws] at he
+        | some ws =>
+          cases hp : Spec.num? c "phi" with
+          | none => simp [Spec.elemOf, hk, hI, hG, hws, hp] at he
+          | some phi =>
+            simp [Spec.elemOf, hk, hI, hG, hws, hp] at he; subst he
+            refine ⟨_, (C07_faithful_ac_current_source trig harm c w wres a b h0 I G ws phi hk hn (lookup_of_num? hI)
+              (lookup_of_num? hG) (lookup_of_num? hws) (lookup_of_num? hp)).1, ?_⟩
+            rw [erase_ite]; split <;> simp [Spec.erase, Spec.openE]
+  · -- complex_current_source
+    cases hIr : Spec.num? c "I_real" with
+    | none => simp [Spec.elemOf, hk, hIr] at he
+    | some Ir =>
+      cases hIi : Spec.num? c "I_imag" with
+      | none => simp [Spec.elemOf, hk, hIr, hIi] at he
+      | some Ii =>
+        cases hG : Spec.num? c "G" with
+        | none => simp [Spec.elemOf, hk, hIr, hIi, hG] at he
+        | some G =>
+          cases hB : Spec.num? c "B" with
+          | none => simp [Spec.elemOf, hk, hIr, hIi, hG, hB] at he
+          | some B =>
+            simp [Spec.elemOf, hk, hIr, hIi, hG, hB] at he; subst he
+            exact ⟨_, (C07_faithful_complex_current_source trig harm c w wres a b Ir Ii G B hk hn (lookup_of_num? hIr)
+              (lookup_of_num? hIi) (lookup_of_num? hG) (lookup_of_num? hB)).1, rfl⟩
+
+/-- the harmonic statement: a periodic source under an admissible analysis is translated to the
+branch the specification intends -/
 def C07_harmonic_statement : Prop :=
   ∀ (trig : Trig) (harm : Harm) (c : Component) (w wres : Rat) (sb : Branch String GQ),
-    TrigZero trig → (c.kind = "periodic_voltage_source" ∨ c.kind = "periodic_current_source") →
-    0 ≤ w → 0 ≤ wres → (∀ w0, Spec.num? c "w" = some w0 → 2 * wres < w0) →
-    (∀ wt, Spec.str? c "wavetype" = some wt → wt ∈ Gen.waveTypes) →
+    TrigZero trig → c.kind ∈ periodicKinds → c.periodicOK w wres →
     Spec.branchOf trig harm c w wres = some sb →
     ∃ br, transformComponent Gen.tables trig harm c w wres = some (.ok br) ∧ Spec.erase br = sb
 
-/-- **finding.**  A periodic source loses its internal resistance: `rect`, `V = 1`, `w0 = 2`,
-`R = 5` analysed at `w = 2` becomes an *ideal* source (`Z = 0`) where `Z = 5` is intended. -/
-theorem C07_harmonic_internal_counterexample : ¬ C07_harmonic_statement := by
-  intro h
-  let c : Component := ⟨"periodic_voltage_source", "V", ["1", "0"],
-    [("wavetype", .str "rect"), ("V", .num 1), ("w", .num 2), ("phi", .num 0), ("R", .num 5)]⟩
-  have hs : Spec.branchOf (fun _ => (1, 0)) (fun _ _ _ _ => (1, 0)) c 2 0
-      = some { n1 := "1", n2 := "0", id := "V", e := .norton ⟨5, 0⟩ ⟨1, 0⟩ } := by decide +kernel
-  have hm : transformComponent Gen.tables (fun _ => (1, 0)) (fun _ _ _ _ => (1, 0)) c 2 0
-      = some (.ok { n1 := "1", n2 := "0", id := "V", ty := "voltage_source", e := .norton ⟨0, 0⟩ ⟨1, 0⟩ }) := by
-    decide +kernel
-  obtain ⟨br, hbr, he⟩ := h (fun _ => (1, 0)) (fun _ _ _ _ => (1, 0)) c 2 0 _ rfl (Or.inl rfl)
-    (by decide +kernel) (by decide +kernel)
-    (by intro w0 hw0; have : w0 = 2 := by
-          have : Spec.num? c "w" = some 2 := by decide +kernel
-          rw [this] at hw0; exact (Option.some.inj hw0).symm
-        subst this; decide +kernel)
-    (by intro wt hwt; have : wt = "rect" := by
-          have : Spec.str? c "wavetype" = some "rect" := by decide +kernel
-          rw [this] at hwt; exact (Option.some.inj hwt).symm
-        subst this; decide)
-    hs
-  rw [hm] at hbr
-  simp only [Option.some.injEq, Except.ok.injEq] at hbr
-  subst hbr
-  revert he
-  decide +kernel
+/-- **C07 (harmonic).** -/
+theorem C07_harmonic : C07_harmonic_statement := by
+  intro trig harm c w wres sb h0 hk hok hs
+  obtain ⟨hw, hres0, hres, hwave, hRpos, hGpos⟩ := hok hk
+  obtain ⟨a, b, e, hn, he, rfl⟩ := branchOf_inv hs
+  simp only [periodicKinds, List.mem_cons, List.mem_nil_iff, or_false] at hk
+  rcases hk with hk | hk
+  · cases hwt : Spec.str? c "wavetype" with
+    | none => simp [Spec.elemOf, hk, hwt] at he
+    | some wt =>
+    cases hV : Spec.num? c "V" with
+    | none => simp [Spec.elemOf, hk, hwt, hV] at he
+    | some V =>
+    cases hw0 : Spec.num? c "w" with
+    | none => simp [Spec.elemOf, hk, hwt, hV, hw0] at he
+    | some w0 =>
+    cases hphi : Spec.num? c "phi" with
+    | none => simp [Spec.elemOf, hk, hwt, hV, hw0, hphi] at he
+    | some phi =>
+    cases hR : Spec.num? c "R" with
+    | none => simp [Spec.elemOf, hk, hwt, hV, hw0, hphi, hR] at he
+    | some R =>
+    by_cases hpos : 0 < w0
+    · obtain ⟨h1, h2⟩ := C07_harmonic_voltage trig harm c w wres a b h0 wt V w0 phi R hk hn (lookup_of_str? hwt)
+        (hwave wt hwt) (lookup_of_num? hV) (lookup_of_num? hw0) (lookup_of_num? hphi) (lookup_of_num? hR)
+        (hRpos R hR) hpos hw hres0 (hres w0 hw0)
+      have : Spec.branchOf trig harm c w wres = some { n1 := a, n2 := b, id := c.id, e := e } := by
+        simp [Spec.branchOf, hn, he]
+      rw [this] at h2
+      refine ⟨_, h1, ?_⟩
+      rw [Option.some.inj h2, erase_ite]; split <;> simp [Spec.erase]
+    · simp [Spec.elemOf, hk, hwt, hV, hw0, hphi, hR, hpos] at he
+  · cases hwt : Spec.str? c "wavetype" with
+    | none => simp [Spec.elemOf, hk, hwt] at he
+    | some wt =>
+    cases hI : Spec.num? c "I" with
+    | none => simp [Spec.elemOf, hk, hwt, hI] at he
+    | some I =>
+    cases hw0 : Spec.num? c "w" with
+    | none => simp [Spec.elemOf, hk, hwt, hI, hw0] at he
+    | some w0 =>
+    cases hphi : Spec.num? c "phi" with
+    | none => simp [Spec.elemOf, hk, hwt, hI, hw0, hphi] at he
+    | some phi =>
+    cases hG : Spec.num? c "G" with
+    | none => simp [Spec.elemOf, hk, hwt, hI, hw0, hphi, hG] at he
+    | some G =>
+    by_cases hpos : 0 < w0
+    · obtain ⟨h1, h2⟩ := C07_harmonic_current trig harm c w wres a b h0 wt I w0 phi G hk hn (lookup_of_str? hwt)
+        (hwave wt hwt) (lookup_of_num? hI) (lookup_of_num? hw0) (lookup_of_num? hphi) (lookup_of_num? hG)
+        (hGpos G hG) hpos hw hres0 (hres w0 hw0)
+      have : Spec.branchOf trig harm c w wres = some { n1 := a, n2 := b, id := c.id, e := e } := by
+        simp [Spec.branchOf, hn, he]
+      rw [this] at h2
+      refine ⟨_, h1, ?_⟩
+      rw [Option.some.inj h2, erase_ite]; split <;> simp [Spec.erase]
+    · simp [Spec.elemOf, hk, hwt, hI, hw0, hphi, hG, hpos] at he
 
-/-! ## the full faithfulness statement and why it fails -/
-
-/-- whenever the specification defines the intended branch of a component, the conversion
+/-- whenever the specification defines the intended branch of a component (DC sources as their
+constructor writes them, periodic sources under an admissible analysis), the conversion
 produces it -/
 def C07_faithful_statement : Prop :=
   ∀ (trig : Trig) (harm : Harm) (c : Component) (w wres : Rat) (sb : Branch String GQ),
-    TrigZero trig → Spec.branchOf trig harm c w wres = some sb →
+    TrigZero trig → c.dcOK → c.periodicOK w wres → Spec.branchOf trig harm c w wres = some sb →
     ∃ br, transformComponent Gen.tables trig harm c w wres = some (.ok br) ∧ Spec.erase br = sb
 
-/-- **finding.**  A conductance has an intended branch and no translator. -/
-theorem C07_faithful_counterexample : ¬ C07_faithful_statement := by
-  intro h
-  let c : Component := ⟨"conductance", "G", ["1", "0"], [("G", .num 2)]⟩
-  have hs : Spec.branchOf (fun _ => (1, 0)) (fun _ _ _ _ => (1, 0)) c 0 0
-      = some { n1 := "1", n2 := "0", id := "G", e := .thevenin ⟨2, 0⟩ 0 } := by decide +kernel
-  have hm : transformComponent Gen.tables (fun _ => (1, 0)) (fun _ _ _ _ => (1, 0)) c 0 0 = none := by
-    decide +kernel
-  obtain ⟨br, hbr, _⟩ := h (fun _ => (1, 0)) (fun _ _ _ _ => (1, 0)) c 0 0 _ rfl hs
-  rw [hm] at hbr
-  cases hbr
+/-- the specification defines a branch only for the kinds the component module can construct -/
+theorem branchOf_kind {trig : Trig} {harm : Harm} {c : Component} {w wres : Rat} {sb : Branch String GQ}
+    (h : Spec.branchOf trig harm c w wres = some sb) : c.kind ∈ exactKinds ∨ c.kind ∈ periodicKinds := by
+  obtain ⟨a, b, e, _, he, _⟩ := branchOf_inv h
+  by_contra hk
+  simp only [exactKinds, periodicKinds, List.mem_cons, List.mem_nil_iff, or_false, not_or] at hk
+  obtain ⟨⟨k1, k2, k3, k4, k5, k6, k7, k8, k9, k10, k11, k12, k13, k14, k15⟩, k16, k17⟩ := hk
+  simp [Spec.elemOf, k1, k2, k3, k4, k5, k6, k7, k8, k9, k10, k11, k12, k13, k14, k15, k16, k17] at he
+
+/-- **C07 (faithful).**  Every component kind, every value, every frequency and resolution. -/
+theorem C07_faithful : C07_faithful_statement := by
+  intro trig harm c w wres sb h0 hdc hper hs
+  rcases branchOf_kind hs with hk | hk
+  · exact C07_faithful_nonperiodic trig harm h0 c w wres sb hk hdc hs
+  · exact C07_harmonic trig harm c w wres sb h0 hk hper hs
 
 /-! ## reference node -/
 
@@ -813,13 +1067,22 @@ example := C07_faithful_ac_voltage_source (fun _ => (1, 0)) (fun _ _ _ _ => (0, 
   ⟨"ac_voltage_source", "V", ["1", "0"], [("V", .num 3), ("R", .num 1), ("w", .num 2), ("phi", .num 0)]⟩
   2 0 "1" "0" rfl 3 1 2 0 rfl rfl rfl rfl rfl rfl
 
-/-- hypotheses of `C07_harmonic_voltage_partial`: `rect`, `w0 = 2`, analysed at `w = 6` with
-`w_res = 1/1024` -/
-example := C07_harmonic_voltage_partial (fun _ => (1, 0)) (fun _ _ _ _ => (1, 0))
+/-- hypotheses of `C07_harmonic_voltage`: `rect`, `w0 = 2`, internal `R = 5`, analysed at `w = 6`
+with `w_res = 1/1024` (the former counterexample of the harmonic statement) -/
+example := C07_harmonic_voltage (fun _ => (1, 0)) (fun _ _ _ _ => (1, 0))
   ⟨"periodic_voltage_source", "V", ["1", "0"],
-    [("wavetype", .str "rect"), ("V", .num 1), ("w", .num 2), ("phi", .num 0), ("R", .num 0)]⟩
-  6 (1 / 1024) "1" "0" rfl "rect" 1 2 0 rfl rfl rfl (by decide) rfl rfl rfl rfl
+    [("wavetype", .str "rect"), ("V", .num 1), ("w", .num 2), ("phi", .num 0), ("R", .num 5)]⟩
+  6 (1 / 1024) "1" "0" rfl "rect" 1 2 0 5 rfl rfl rfl (by decide) rfl rfl rfl rfl (by decide +kernel)
   (by decide +kernel) (by decide +kernel) (by decide +kernel) (by decide +kernel)
+
+/-- the former counterexamples, now positive: a conductance between a current source and a
+resistor keeps its branch -/
+example : (do let bs ← transformBranches Gen.tables (fun _ => (1, 0)) (fun _ _ _ _ => (0, 0))
+                [⟨"ground", "gnd", ["0"], []⟩,
+                 ⟨"dc_current_source", "I", ["0", "1"], [("I", .num 1), ("G", .num 0), ("w", .num 0), ("phi", .num 0)]⟩,
+                 ⟨"conductance", "G", ["1", "0"], [("G", .num 2)]⟩,
+                 ⟨"resistor", "R", ["1", "0"], [("R", .num 1)]⟩] 0 Gen.defaultWRes
+              pure (bs.map (·.id))) = Except.ok ["I", "G", "R"] := by decide +kernel
 
 /-- hypotheses of `C07_harmonic_sound` / `C07_harmonic_complete`: the third harmonic of `w0 = 2` -/
 example : ¬ periodicOff 6 2 (1 / 1024) := by decide +kernel
